@@ -1423,7 +1423,9 @@ class Render:
             self.used.add('ints:keyword')
         if any(e is None for n, e in items):
             self.used.add('ints:blank')
-        if bare_ok and r.random() < .55:
+        # (a bare list that ends with a keyword argument and is followed by a comma would swallow what follows: a parser that
+        # has seen a keyword cannot know the list is complete)
+        if bare_ok and not (kw and follow == ',') and r.random() < .55:
             self.used.add('ints:bare')
             out = []
             for i, (n, e) in enumerate(items):
@@ -1493,15 +1495,22 @@ class Render:
             return d + items[0] + d
         seps = [c for c in ALT_DELIMS + ' ' + ',' if c not in joined and (c != ';' or not any(x in joined for x in '&<>'))
                 ]
+        # docs: "When a comma-separated sequence of string parameters is split, any commas that appear between parentheses
+        # are retained" - also when the sequence is written with an alternative delimiter and ',' as the separator
+        comma_ok = ',' in joined and doc_split_commas(','.join(items)) == list(items)
+        if comma_ok and r.random() < .5:
+            seps = [',']
         if not seps:
             return None
         sp = d if (r.random() < .3 and d in seps) else (' ' if (r.random() < .2 and ' ' in seps) else r.choice(seps))
         body = sp.join(items)
         s = d + sp + body + sp + d
         # docs: "must open with ds, be separated by s, and close with sd"
-        end = s.find(sp + d, 2)
-        if end != len(s) - 2 or s[2:end].split(sp) != list(items):
+        end = s.rfind(sp + d) if sp == ',' else s.find(sp + d, 2)
+        if end != len(s) - 2 or (doc_split_commas(s[2:end]) if sp == ',' else s[2:end].split(sp)) != list(items):
             return None
+        if sp == ',' and ',' in joined:
+            self.used.add('str:alt-comma-parens')
         self.used.add('str:alt-same' if sp == d else ('str:alt-space' if sp == ' ' else 'str:alt'))
         return s
 
